@@ -2,7 +2,7 @@
 //! table as part of their query. If they can't, the query will not be routed.
 
 use async_trait::async_trait;
-use sqlparser::ast::{visit_relations, Statement};
+use sqlparser::ast::{visit_relations, ObjectName, Statement};
 
 use crate::{
     errors::Error,
@@ -32,17 +32,28 @@ impl<'a> Plugin for TableAccess<'a> {
 
         let mut found = None;
 
-        visit_relations(ast, |relation| {
-            let relation = relation.to_string();
-            let parts = relation.split('.').collect::<Vec<&str>>();
-            let table_name = parts.last().unwrap();
+        // Compare the way Postgres resolves identifiers: quoted ones verbatim,
+        // unquoted ones folded to lower case; the schema is ignored.
+        let blocked = |relation: &ObjectName| -> Option<String> {
+            let table_name = match relation.0.last() {
+                Some(ident) if ident.quote_style.is_some() => ident.value.clone(),
+                Some(ident) => ident.value.to_lowercase(),
+                None => return None,
+            };
 
-            if self.tables.contains(&table_name.to_string()) {
-                found = Some(table_name.to_string());
-                ControlFlow::<()>::Break(())
+            if self.tables.contains(&table_name) {
+                Some(table_name)
             } else {
-                ControlFlow::<()>::Continue(())
+                None
             }
+        };
+
+        let _ = visit_relations(ast, |relation| match blocked(relation) {
+            Some(table_name) => {
+                found = Some(table_name);
+                ControlFlow::<()>::Break(())
+            }
+            None => ControlFlow::<()>::Continue(()),
         });
 
         if let Some(found) = found {
